@@ -176,12 +176,12 @@ HARNESSES = {
             {"fixed": {"k": 1, "kind": "switched"}, "timeout": 280},
             {"fixed": {"k": 1, "kind": "routed"}, "timeout": 280},
         ]
-        + [{"fixed": {"k": 2, "kind": "switched", "a0": a, "reset_at": 2}, "timeout": 280} for a in (24, 37, 41, 39, 7, 44)],
+        + [{"fixed": {"k": 2, "kind": "switched", "a0": a, "reset_at": 2}, "timeout": 280} for a in (24, 37, 41, 39, 7, 44, 9, 22, 6)],
         "thorough": [{"fixed": {"k": 2, "kind": kd, "a0": a}, "timeout": 1500} for kd in ("switched", "routed") for a in range(0, 54, 2)]
         + [{"fixed": {"k": 1, "kind": "", "scenario_file": f}, "timeout": 1500} for f in SHIPPED],
         "cover": ["steps_done", "reset"],
         "bounds": {
-            "quick": "k=1: every action x M in {1,2} x reset before/after, both topologies; k=2: first action in {file delete, folder create, shutdown, nic disable, service disable, app install}, second action any, M in 1..3",
+            "quick": "k=1: every action x M in {1,2} x reset before/after, both topologies; k=2: first action in {file delete, folder create, shutdown, nic disable, service disable, app install, service fix, application fix, service restart}, second action any, M in 1..3",
             "thorough": "k=2 with every second action as first action on both topologies, M in 1..3, reset at 0/1/2; shipped scenario files with k=1 over their whole action map",
         },
     },
